@@ -354,3 +354,45 @@ def r8(cx, rec):
                 n += 1
                 rec.site(f, bb, 'awaited send of a TrackerCmd')
     rec.need(n >= 1, 'tracker-cmd-not-sent', 'tracker_client', None, 'the tracker task never sends a TrackerCmd to the manager')
+
+
+@TABLE.rule('9', 'K2', 'the reply body is taken as bytes (ids are binary): no text decoding between the HTTP response and the bencode parser', floor=1)
+def r9(cx, rec):
+    F = cx.F
+    n = 0
+    for f in F.user_fns():
+        if not f.path.startswith('tracker_client::'):
+            continue
+        for bb in mirq.real_calls(f):
+            cal = f.blocks[bb]['t'].get('callee') or ''
+            if re.search(r'reqwest::(async_impl::response::)?Response::bytes$', cal):
+                n += 1
+                rec.site(f, bb, 'Response::bytes')
+            elif re.search(r'reqwest::(async_impl::response::)?Response::(text|text_with_charset|json)$', cal):
+                rec.violation('reply-decoded-as-text/' + F.owner_fn(f).path, f, bb,
+                              'the tracker reply is read with %s: a binary peer id is replaced by U+FFFD sequences, the bencode lengths no '
+                              'longer match and every good reply is reported as a failure' % cal.split('::')[-1])
+    rec.need(n >= 1, 'reply-not-read-as-bytes', 'tracker_client', None, 'the reply body is never read as bytes')
+
+
+@TABLE.rule('10', 'K9', 'a task handle is awaited at most once: the joiner takes it out of its slot before awaiting', floor=2)
+def r10(cx, rec):
+    F = cx.F
+    for p, jp in joiners(F).items():
+        f = F.body(p)
+        for sb in f.switches():
+            e, ts, o = f.cond(sb)
+            if e[0] == 'discr' and 'Poll' in e[2] and e[1][0] == 'call' and e[1][1] == 'poll':
+                fut = e[1][2][0]
+                ap = access_path(fut) or ''
+                if not set(re.split(r'[^A-Za-z0-9_]+', ap)) & {fl['name'] for a in F.adts.values() if a['kind'] == 'Struct'
+                                                                for fl in a['variants'][0]['fields'] if 'JoinHandle' in fl['ty']}:
+                    continue
+                opt_slot = any(fl['ty'].startswith('std::option::Option<tokio::task::JoinHandle') for a in F.adts.values() if a['kind'] == 'Struct'
+                               for fl in a['variants'][0]['fields'] if fl['name'] == ap.split('.')[-1].split('<')[0])
+                taken = any(x[0] == 'call' and x[4].get('name') in ('take', 'remove') for x in walk(fut, inl=False))
+                rec.site(f, sb, 'awaits %s (slot is an Option: %s, taken out first: %s)' % (ap[:60], opt_slot, taken))
+                if 'Option' in show(fut) or '<Some>' in show(fut):
+                    rec.need(taken, 'join-handle-kept/' + p, f, sb,
+                             'the JoinHandle is awaited in place (%s) and stays in its slot: a second terminal message makes the manager poll a '
+                             'completed handle, which panics the manager task' % ap[:80])
